@@ -16,6 +16,9 @@ CONSTANTS
   InitCfgs,      \* set of start configurations [defaultGas, listed, gas, legacy]
   Forms,         \* shapes of incoming voucher denominations
   Govs,          \* callers of the governance entry points
+  Donors,        \* users who send money to the contract outside a transfer
+  DonDenoms, DonMax,
+  Vers,          \* releases whose stored version string the contract starts with ("cur": this one)
   GenMode, GenDepth, GenFail, SampleK
 
 VARIABLES sched, cfgv
@@ -28,7 +31,7 @@ ViewEv == <<View, ev>>
 
 Zero == [c \in Chan |-> [d \in Denom |-> 0]]
 Init ==
-  \E c0 \in InitCfgs :
+  \E c0 \in InitCfgs, v0 \in Vers :
     LET pre == IF c0.legacy THEN [c \in Chan |-> [d \in Denom |-> IF c = "ch1" THEN 1 ELSE 0]] ELSE Zero IN
     /\ chan = [c \in Chan |-> [d \in Denom |-> [out |-> 0, sent |-> 0]]]     \* in flight: escrowed, not yet in the books
     /\ held = [d \in Denom |-> SumF(Chan, [c \in Chan |-> pre[c][d]])]
@@ -46,7 +49,7 @@ Init ==
     /\ \A i \in 1..20 : TLCSet(100 + i, 0)
     /\ cfgv = [channels |-> SetToSeq(Chan), defaultGas |-> IF c0.legacy /\ ~c0.v2 THEN 100 ELSE c0.defaultGas,
                allow |-> IF c0.legacy /\ ~c0.v2 THEN <<[gas |-> -1]>> ELSE IF c0.listed THEN <<[gas |-> c0.gas]>> ELSE <<>>,
-               legacy |-> IF c0.legacy THEN (IF c0.v2 THEN "v2" ELSE "v1") ELSE "none", scale |-> 0,
+               legacy |-> IF c0.legacy THEN (IF c0.v2 THEN "v2" ELSE "v1") ELSE "none", scale |-> 0, ver |-> v0,
                pre |-> IF c0.legacy THEN <<[act |-> "transfer", by |-> "u1", args |-> [denom |-> "nat", ch |-> "ch1", amt |-> 1, to |-> "remote1"]],
                                             [act |-> "transfer", by |-> "u1", args |-> [denom |-> "tok", ch |-> "ch1", amt |-> 1, to |-> "remote1"]]>>
                        ELSE <<>>]
@@ -120,6 +123,11 @@ DoMigrate(g) ==
                  THEN [out |-> held[d], sent |-> chan[c][d].sent + (held[d] - chan[c][d].out)] ELSE chan[c][d]]] ELSE chan
   /\ ident' = IF legacy THEN [c \in Chan |-> [d \in Denom |-> chan'[c][d].out]] ELSE ident
   /\ UNCHANGED <<held, ubal, allow, tokFails, pkts, now, credit, pktMax>>
+DoDonate(u, d, a) ==
+  /\ a > 0
+  /\ held' = [held EXCEPT ![d] = @ + a] /\ ubal' = [ubal EXCEPT ![u][d] = @ - a]
+  /\ out' = <<>> /\ ack' = "none"
+  /\ UNCHANGED <<chan, pkts, credit, ident>> /\ Keep
 DoTokFail(on) ==
   /\ tokFails' = on /\ tokFails # on
   /\ out' = <<>> /\ ack' = "none"
@@ -153,6 +161,9 @@ AUpdateAdmin == Ready /\ \E by \in Govs, new \in Govs \ {"u1"} :
   Call(Ev("update_admin", by, [new |-> new]), DoUpdateAdmin(by, new))
 AMigrate == Ready /\ \E g \in Gases \ {0} :
   Call(Ev("migrate", "creator", [gas |-> g]), DoMigrate(g))
+ADonate == Ready /\ \E u \in Donors, d \in DonDenoms, a \in Amts :
+  /\ held[d] + a <= SumF(Chan, [c \in Chan |-> chan[c][d].out]) + DonMax     \* (bound for TLC only)
+  /\ Call(Ev("donate", u, [denom |-> d, amt |-> a]), DoDonate(u, d, a))
 ATokFail == Ready /\ \E on \in BOOLEAN :
   /\ DoTokFail(on)
   /\ ev' = Ev("tokfail", "env", [on |-> on]) /\ UNCHANGED <<cfgv, regs>>
@@ -160,12 +171,12 @@ ATokFail == Ready /\ \E on \in BOOLEAN :
 
 \* a v1 contract is migrated first (code and storage are swapped atomically)
 Next == IF legacy THEN AMigrate
-        ELSE ATransfer \/ ARecv \/ AFail \/ AAckOk \/ AAllow \/ AUpdateAdmin \/ AMigrate \/ ATokFail
+        ELSE ATransfer \/ ARecv \/ AFail \/ AAckOk \/ AAllow \/ AUpdateAdmin \/ AMigrate \/ ATokFail \/ ADonate
 Spec == Init /\ [][Next]_mcvars
 
 A_C11 == [][C11_HeldWriters /\ C11_BadPacketReleasesNothing]_vars
 A_C12 == [][C12_SuccessAckPaid /\ C12_ErrorAckNoChange /\ C12_ReceiveNeverAborts /\ C12_OnePacket /\ C12_SentOnlyGrows
-            /\ C12_FailedCallNoChange /\ C12_FailureRefunds /\ C12_SuccessAckKeeps /\ C12_OthersKeepBooks /\ C12_LegacyMigrateRebases]_vars
+            /\ C12_FailedCallNoChange /\ C12_FailureRefunds /\ C12_SuccessAckKeeps /\ C12_OthersKeepBooks /\ C12_LegacyMigrateRebases /\ C12_DonationNotBooked]_vars
 A_C18 == [][C18_AllowMonotone /\ C18_GovOnly /\ C18_GovExact /\ C18_MigrateFromLegacy /\ C18_DefaultGasWriters
             /\ C18_TransferGate /\ C18_PayoutGas]_vars
 
